@@ -246,6 +246,11 @@ def run(spec, mon):
                 case = dict(case, hook_fault={"k": rng.choice(ks), "exc": rng.choice(["Exception", "AssertionError"])})
         if i % 5 == 3:
             case = dict(case, fail_fast=rng.choice(["feature", "rule"]))
+        if i % 4 == 2:
+            # a feature file whose NAME contains a '#' (issue#12.feature): in a list file only a line that STARTS with '#' is a comment
+            victim = rng.choice(case["program"]["features"])
+            victim["file"] = "issue#%d.feature" % (12 + i)
+            mon.seen("feature_file_name_class", "contains_hash")
         one_history(lab, mon, rng, case, stale=(i % 3 == 0), sample=(i == 2 and spec["shard"] == 0))
     for i in range(1 if tier == "quick" else 25):
         gen = {"outcomes": outs, "max_features": 2, "p_nonpass": 0.5, "p_stepless": 0.0}
